@@ -16,5 +16,14 @@ while IFS='|' read -r prop file expr what; do
   git checkout -- $file
   if [ $rc -eq 1 ]; then ok=$((ok+1)); echo "CAUGHT    $prop $what :: $(echo "$out" | grep '^failed' | head -1 | awk '{print $2}')"; else bad=$((bad+1)); echo "MISSED    $prop $what"; fi
 done < /verif/selftest/sed_mutants.txt
+# patch mutants: the original bodies of the repaired functions (and other multi-line changes); file name starts with the property id
+for pf in /verif/selftest/mutants/*.patch; do
+  prop=$(basename $pf | cut -c1-3); [[ $prop == F12* ]] && prop=C16
+  [ -n "$1" ] && [ "$1" != "$prop" ] && continue
+  git apply $pf 2>/dev/null || { echo "NOAPPLY   $prop $(basename $pf)"; bad=$((bad+1)); continue; }
+  out=$(/verif/bin/gzv check -property $prop -no-evidence -no-replay 2>&1); rc=$?
+  git checkout -- .
+  if [ $rc -eq 1 ]; then ok=$((ok+1)); echo "CAUGHT    $prop $(basename $pf) :: $(echo "$out" | grep '^failed' | head -1 | awk '{print $2}')"; else bad=$((bad+1)); echo "MISSED    $prop $(basename $pf)"; fi
+done
 echo "selftest: caught=$ok not-caught-or-invalid=$bad"
 [ $bad -eq 0 ]
